@@ -406,6 +406,49 @@ fn c02_packet_scmp_n96() {
     packet_typed_scmp::<96>()
 }
 
+/// Typed packet views built directly from an (uncut) input with arbitrary trailing bytes - not
+/// from an already cut raw view: the constructor contract, and the accessors that `expect` what the
+/// constructor checked.
+fn packet_typed_direct_udp<const N: usize>() {
+    let len: usize = kani::any();
+    kani::assume(len <= N);
+    let mut buf: [u8; N] = kani::any();
+    let Some(u) = ctor_contract!(ScionUdpPacketView, buf, len) else { return };
+    let all = unsafe { std::slice::from_raw_parts(u.as_slice().as_ptr(), u.as_slice().len()) };
+    kani::cover!(all.len() < len, "typed UDP view with trailing bytes behind it");
+    let d = u.udp();
+    assert!(within(all, d.as_slice()) && within(all, d.payload()), "UDP datagram outside the packet");
+    let _ = (d.src_port(), d.dst_port(), d.length(), d.checksum());
+    assert!(within(all, u.as_raw().as_slice()));
+}
+
+fn packet_typed_direct_scmp<const N: usize>() {
+    let len: usize = kani::any();
+    kani::assume(len <= N);
+    let mut buf: [u8; N] = kani::any();
+    let Some(sv) = ctor_contract!(ScionScmpPacketView, buf, len) else { return };
+    let all = unsafe { std::slice::from_raw_parts(sv.as_slice().as_ptr(), sv.as_slice().len()) };
+    kani::cover!(all.len() < len, "typed SCMP view with trailing bytes behind it");
+    let m = sv.scmp();
+    assert!(within(all, m.as_slice()), "SCMP message outside the packet");
+    let _ = (m.message_type(), m.code(), m.checksum());
+    assert!(within(all, sv.as_raw().as_slice()));
+}
+
+// verif: prop=C02 tier=quick cap=2400 bound="all byte strings <= 96 B handed directly to the typed UDP packet view constructor (any trailing bytes)" fns="ScionUdpPacketView::{try_from_mut_slice,has_required_size,udp,as_raw},ScionPacketView::payload" stubs="none"
+#[kani::proof]
+#[kani::unwind(4)]
+fn c02_packet_direct_udp_n96() {
+    packet_typed_direct_udp::<96>()
+}
+
+// verif: prop=C02 tier=quick cap=2400 bound="all byte strings <= 96 B handed directly to the typed SCMP packet view constructor (any trailing bytes)" fns="ScionScmpPacketView::{try_from_mut_slice,has_required_size,scmp,as_raw},ScionPacketView::payload" stubs="none"
+#[kani::proof]
+#[kani::unwind(4)]
+fn c02_packet_direct_scmp_n96() {
+    packet_typed_direct_scmp::<96>()
+}
+
 /// addresses of a packet (host address construction: 16-step ArrayVec initialisation)
 fn packet_addrs<const N: usize>() {
     let len: usize = kani::any();
